@@ -452,3 +452,4 @@ def run(ctx):
                 bad = True
         ctx.check(not bad, "C19.c", f"{es.qualname}:negative-refused", "negative squared errors always refused",
                   "negative squared errors accepted on some path", es.where)
+    ctx.borrow("C05", ("HistogramBase.__sub__:every-path", "HistogramBase.__add__:every-path"), "C19.c", floor=2)
